@@ -3,7 +3,7 @@
 import json, sys, os
 V = os.path.dirname(os.path.dirname(os.path.abspath(__file__)))
 HOOK_COMMITS = ["cd80d8c"]
-FIX_COMMITS = ["19db2e0", "612f831", "571a0e7", "96684bc", "f012a8c", "eccf4bb", "14aaa4b", "54e5379"]
+FIX_COMMITS = ["19db2e0", "612f831", "571a0e7", "96684bc", "f012a8c", "eccf4bb", "14aaa4b", "54e5379", "46b26ac", "cb1d70b", "8661656"]
 SIM_NOTE = ("Trusted base: the harness simulator (virtual clock + deterministic rand via the verif-hooks feature, simulated "
             "network whose per-packet fates are a pure function of (seed, link, per-link counter), strict request-executing game, "
             "30-line reference model of the delayed input stream) and proptest 1.11. Absence is not established: the claim is "
@@ -38,6 +38,14 @@ CHECKS = {
    text="Per-address event grammar and a ledger of matched sync nonces under generated loss/duplication/reordering and injected stray, replayed and foreign replies; bounded enumeration of silence periods in 10 ms steps around the notify delay and the timeout for four timeout settings, three poll cadences and spectators, with the exact Interrupted/Resumed/Disconnected sequence predicted from poll instants and deliveries; 30 s poll-only runs with default timeouts; never-drained sessions for the 100-entry bound. Two genuine defects were repaired by fix: commits."),
  "C13": dict(cat="exploration", ref="§6 C13", technique="bounded-exhaustive enumeration of SyncTest configurations and of perturbation placements (frame x simulation-index pattern) with a deterministic / deliberately non-deterministic game",
    text="Bounded-exhaustive: every builder configuration in players 1..=4 x window 1..=10 x check distance 0..=11 x delay {0,1,3,7} x sparse (invalid ones must be rejected, valid ones run 120 frames with a deterministic game and must never report a mismatch, with C02's executor and an input oracle), plus every placement of a non-deterministic step (frame F x which simulations of F differ) for check distances >= 2, where detection must come within check_distance+2 frames naming frame F+1. One genuine defect is recorded as a known finding (first-simulation-only non-determinism is never compared)."),
+ "C15": dict(cat="exploration", ref="§6 C15", technique="bounded enumeration of steady-lead schedules (lead x latency x fps x delay) under the virtual clock with millisecond polling; oracle from the configured lead and the link's true round-trip time",
+   text="For every lead k in -7..=7, eight symmetric latencies 0..=100 ms, three fps settings and two delays, two peers tick in lock step after one of them skipped |k| ticks; sampled after a warm-up, frames_ahead() must be within one frame of +k / -k with a sum within one frame of zero, WaitRecommendation must only come with frames_ahead() >= 3, carry that value, keep 60 frames distance and actually come when |k| >= 4, ping must lie in [2L, 2L + one tick], one side's local_frames_behind must match the other's remote_frames_behind, and network_stats() must say NotEnoughData before one second."),
+ "C16": dict(cat="exploration", ref="§6 C16", technique="bounded-exhaustive builder call sequences (length <= 3 quick, plus sampled length 4 thorough) and random programs against a reference validity predicate, running every accepted configuration; metamorphic misuse-call insertion with a twin run",
+   text="Every sequence of up to 3 builder calls over small value domains (67 calls) x 3 start methods is compared call by call with a reference predicate written from the rustdoc (about 900k programs), plus random longer programs; every accepted configuration is then started and driven together with complementary sessions for every other address (P2P), with the strict game (SyncTest) or alone (spectator) and must not panic or return unexpected errors. Misuse calls inserted at arbitrary points of valid simulated runs must return the documented error and leave request traces, states, events and connection status identical to the twin run without them."),
+ "C17": dict(cat="exploration", ref="§6 C17", technique="metamorphic replication: every generated scenario is executed three times in fresh OS threads (fresh HashMap RandomState, different handshake random numbers) and all listed observables are compared",
+   text="Each generated scenario (weighted to several local players per peer, 3-4 peers, desync reports including real desyncs, delay changes, deaths) is executed three times inside one process; replicas run in fresh OS threads so that every HashMap gets new random keys, and with different handshake/magic numbers. Request-list traces, all game states, per-address event sequences with timestamps and per-link sent packet counts must be identical. Hash order cannot be forced, only sampled: a dependence that needs one specific order of several keys can be missed."),
+ "C18": dict(cat="exploration", ref="§6 C18", technique="property-based long-history runs (2000-9000 ticks) sampling every internal buffer size after every call through a hook accessor, against configuration-derived bounds and a first-half/second-half drift test",
+   text="Long generated runs over C01's topologies plus all-local sessions, never-drained sessions, silent spectators and 40%-loss phases; after every API call the sizes of the event queue, outgoing local inputs, per-endpoint pending outputs, received-input history, checksum maps and send queue are read through the verif-hooks accessor and compared with bounds that depend only on the configuration; the maximum over the second half of the run is compared with the first half to expose slow leaks; a silent spectator must be disconnected exactly once."),
 }
 PENDING_REASON = "check not yet built in this commit (implementation in progress; see DESIGN.md §6 for the planned design)"
 ALL = ["C%02d" % i for i in range(1, 19)]
